@@ -1,4 +1,5 @@
 import Proofs.SrcClauses
+import Proofs.C06
 /-!
 # Source-level helpers: a conditional whose condition fails
 
@@ -147,3 +148,77 @@ theorem chainK_first_cond_err (P : Prims) (O : OutPrims) (cfg : Cfg) (fs : FS) (
   rw [List.nil_append] at h
   rw [h]
   split <;> rfl
+
+/-! ## `elsif` inside `unless`: rejected by the block parser -/
+
+theorem firstUnmodelledObj_clauseItemsK (d : Delims) (kw : Bytes) : ∀ (cs : List Clause) (l : Nat) (post : List Item),
+    (∀ c ∈ cs, Compiles d c.body 0) → (∀ l', firstUnmodelledObj (tokensOf d post l') = none) →
+    firstUnmodelledObj (tokensOf d (clauseItemsK kw cs ++ post) l) = none
+  | [], l, post, _, hp => hp l
+  | c :: r, l, post, h, hp => by
+    simp only [clauseItemsK, List.cons_append, List.append_assoc]
+    rw [tokensOf_tagK, firstUnmodelledObj_tag _ _ (Clause.tokK_ty d kw c l), tokensOf_append, firstUnmodelledObj_append,
+      (compileTokens_ok (nodesOf_spec (h c (List.mem_cons_self ..)) _)).1]
+    exact firstUnmodelledObj_clauseItemsK d kw r _ post (fun x hx => h x (List.mem_cons_of_mem _ hx)) hp
+
+/-- `{% unless c0 %}A0{% else %}… {% elsif t %}…`: the block parser stops at the `elsif` tag (`elsif not inside if; immediate
+    parent is unless`), whatever `c0` and `t` are and whatever follows -/
+theorem unlessChain_elsif_compile (d : Delims) (line : Nat) (c0 : Bytes) (w0 : Ws) (A0 : List Item) (pre : List Clause) (sel : Clause)
+    (post : List Clause) (wE : Ws) (t : Bytes)
+    (hA : Compiles d A0 0) (hbodies : ∀ c ∈ pre ++ sel :: post, Compiles d c.body 0)
+    (helse : ∀ c ∈ pre, c.cond = none) (hsel : sel.cond = some t) :
+    compileTokens (tokensOf d (blockSrcK nmElsif nmUnless c0 w0 A0 (pre ++ sel :: post) wE) line) =
+      .err ⟨line + countNL ((tg nmUnless c0 w0).spell d) + countNL (spell d A0) + countNL (spell d (clauseItemsK nmElsif pre)),
+        true, .none, .notInside⟩ := by
+  have hU : firstUnmodelledObj (tokensOf d (blockSrcK nmElsif nmUnless c0 w0 A0 (pre ++ sel :: post) wE) line) = none := by
+    unfold blockSrcK
+    rw [tokensOf_tg, firstUnmodelledObj_tag _ _ rfl, tokensOf_append, firstUnmodelledObj_append,
+      (compileTokens_ok (nodesOf_spec hA _)).1]
+    exact firstUnmodelledObj_clauseItemsK d nmElsif _ _ _ hbodies (fun l' => by rw [tokensOf_tg, firstUnmodelledObj_tag _ _ rfl]; rfl)
+  obtain ⟨hUa, astA, hdA, -⟩ := compileTokens_ok (nodesOf_spec hA (line + countNL ((tg nmUnless c0 w0).spell d)))
+  have ho : stdGrammar.isOpen (tgTok d nmUnless c0 w0 line) = true := isOpen_tgTok _ _ _ _ _ (by decide) (by decide) (by decide)
+  obtain ⟨segs, s1, s2, s3, -, -⟩ := clausesK_compile d nmElsif (tgTok d nmUnless c0 w0 line) pre
+    (line + countNL ((tg nmUnless c0 w0).spell d) + countNL (spell d A0))
+    (clauseItemsK nmElsif (sel :: post) ++ [tg (endPrefix ++ nmUnless) [] wE])
+    (fun c hc => hbodies c (List.mem_append_left _ hc))
+    (fun c hc l => ifK_admits d nmUnless c0 w0 line (.inr rfl) c (fun _ => helse c hc) l)
+  -- the tokens: a viable prefix, the `elsif` tag, the rest
+  have hselTok : sel.tokK d nmElsif (line + countNL ((tg nmUnless c0 w0).spell d) + countNL (spell d A0) +
+      countNL (spell d (clauseItemsK nmElsif pre))) =
+      tgTok d nmElsif t sel.w (line + countNL ((tg nmUnless c0 w0).spell d) + countNL (spell d A0) +
+      countNL (spell d (clauseItemsK nmElsif pre))) := by
+    unfold Clause.tokK
+    rw [hsel]
+  have htoks : ∃ restT, tokensOf d (blockSrcK nmElsif nmUnless c0 w0 A0 (pre ++ sel :: post) wE) line =
+      (tgTok d nmUnless c0 w0 line :: (tokensOf d A0 (line + countNL ((tg nmUnless c0 w0).spell d)) ++ segToks segs)) ++
+        tgTok d nmElsif t sel.w (line + countNL ((tg nmUnless c0 w0).spell d) + countNL (spell d A0) +
+          countNL (spell d (clauseItemsK nmElsif pre))) :: restT := by
+    refine ⟨tokensOf d (sel.body ++ (clauseItemsK nmElsif post ++ [tg (endPrefix ++ nmUnless) [] wE]))
+      (line + countNL ((tg nmUnless c0 w0).spell d) + countNL (spell d A0) + countNL (spell d (clauseItemsK nmElsif pre)) +
+        countNL ((sel.tagK nmElsif).spell d)), ?_⟩
+    unfold blockSrcK
+    rw [tokensOf_tg, tokensOf_append, clauseItemsK_append, List.append_assoc, s1]
+    simp only [clauseItemsK, List.cons_append]
+    rw [tokensOf_tagK, hselTok]
+    simp only [List.cons_append, List.append_assoc]
+  obtain ⟨restT, htoks⟩ := htoks
+  obtain ⟨f', cur', hf', hloop⟩ := loop_open_clauses (g := stdGrammar) (chk := objChk) stdGrammar_OK [] segs s2 s3
+    { tok := tgTok d nmUnless c0 w0 line, outer := [], body := none, clauses := [], cur := none } (astA.reverse ++ []) rfl
+  have hs : parseLoop stdGrammar objChk {} (tgTok d nmUnless c0 w0 line ::
+      (tokensOf d A0 (line + countNL ((tg nmUnless c0 w0).spell d)) ++ segToks segs)) = .ok ⟨cur', [f'], .normal⟩ := by
+    rw [loop_cons_ok (step_open ho), loop_derives stdGrammar_OK hdA]
+    exact hloop
+  have hparse := first_error_notInside stdGrammar objChk _ restT
+    (tgTok d nmElsif t sel.w (line + countNL ((tg nmUnless c0 w0).spell d) + countNL (spell d A0) +
+          countNL (spell d (clauseItemsK nmElsif pre)))) _ hs rfl rfl
+    (by show stdGrammar.known nmElsif = true; decide) (by show stdGrammar.isBlock nmElsif = false; decide)
+    (by show nmElsif ≠ commentName; decide) (by show nmElsif ≠ rawName; decide)
+    (by
+      intro f hf
+      simp only [List.head?_cons, Option.mem_def, Option.some.injEq] at hf
+      subst hf
+      rw [hf']
+      constructor <;> simp only [Grammar.isClauseOf, isEndOf, tgTok] <;> decide)
+  rw [← htoks] at hparse
+  rw [compileTokens_of_parse_err hU hparse]
+  rfl
